@@ -97,5 +97,6 @@ _ADDED = {
     'C20': '; texts with line boundaries of every kind (LF, CR, CRLF, U+2028, VT, NEL); error rendering under every colour policy',
 }
 for _k, _v in _ADDED.items():
-    _c = CHECKS[_k]
-    CHECKS[_k] = (_c[0], _c[1] + _v, _c[2], _c[3])
+    if _k in CHECKS:
+        _c = CHECKS[_k]
+        CHECKS[_k] = (_c[0], _c[1] + _v, _c[2], _c[3])
